@@ -291,17 +291,19 @@ def IMG_RAND(run):
 def c08(run):
     run.scen("MC_Bmp", {"MaxWidth": 70 if run.thorough else 40, "Seed": vlib.SEED % 300, "NRand": 2000 if run.thorough else 300}, invariants=BMP_INV, workers=8, own=by_prefix("bmp_", "scenario"))
     # whatever the reader accepts among the faulted images of the C11 fault model must satisfy the post-conditions C08 states
-    run.scen("MC_ImageFault", IMG_RAND(run), small_heap=True, max_crashes=300, own=lambda m: "/postcondition" in m["site"] and "prt" not in m["site"].split("/")[1], name="MC_ImageFault (post-conditions of accepted bitmaps)")
+    run.scen("MC_ImageFault", IMG_RAND(run), small_heap=True, max_crashes=300, own=lambda m: "/postcondition" in m["site"] and "/bmp." in m["site"], name="MC_ImageFault (post-conditions of accepted bitmaps)")
 
 
 def c09(run):
     run.scen("MC_Bmp", {"MaxWidth": 40, "Seed": vlib.SEED % 300, "NRand": 1000 if run.thorough else 200}, invariants=BMP_INV, workers=8, own=by_prefix("tileset", "ts_detect", "scenario"))
+    # whatever the detecting loader accepts among the faulted tilesets of the C11 fault model saves and loads back as the same picture
+    run.scen("MC_ImageFault", IMG_RAND(run), small_heap=True, max_crashes=300, own=lambda m: "/postcondition" in m["site"] and "/tileset." in m["site"], name="MC_ImageFault (post-conditions of accepted tilesets)")
 
 
 def c10(run):
     run.scen("MC_Prt", {"Seed": vlib.SEED % 300, "NRand": 600 if run.thorough else 120}, invariants=("RulesAsIntended", "TotalsMatch", "EncodingDeterminedByValue", "NonCanonicalHeaderSameLength", "Export"), workers=8)
     # whatever the reader accepts among the faulted PRT images of the C11 fault model satisfies the rules and round-trips
-    run.scen("MC_ImageFault", IMG_RAND(run), small_heap=True, max_crashes=300, own=lambda m: "/postcondition" in m["site"] and "prt" in m["site"], name="MC_ImageFault (post-conditions of accepted PRT files)")
+    run.scen("MC_ImageFault", IMG_RAND(run), small_heap=True, max_crashes=300, own=lambda m: "/postcondition" in m["site"] and "/prt." in m["site"], name="MC_ImageFault (post-conditions of accepted PRT files)")
 
 
 def c11(run):
